@@ -85,6 +85,12 @@ def extra_shapes(extra_attrs=()):
                       [('A', [ID, ('Alt', 'unique_id')] + x), ('B', [ID, ('A_Id', 'unique_id'), ('A_Alt', 'unique_id')] + x)],
                       [Assoc(1, 'B', ['A_Id', 'A_Alt'], True, True, '', 'A', ['Id', 'Alt'], False, True, '')],
                       [('A', 'I1', ['Id', 'Alt']), ('B', 'I1', ['Id'])]))
+    # (l) one referential attribute formalising two associations (to different classes)
+    out.append(Schema('l_shared_referential',
+                      [('A', [ID] + x), ('C', [ID] + x), ('B', [ID, ('X', 'unique_id')] + x)],
+                      [Assoc(1, 'B', ['X'], True, True, '', 'A', ['Id'], False, True, ''),
+                       Assoc(2, 'B', ['X'], True, True, '', 'C', ['Id'], False, True, '')],
+                      [(k, 'I1', ['Id']) for k in ('A', 'B', 'C')]))
     # (k) 1:1 unconditional on both sides (C11: a rejected relate must not hide the missing partner of the other instance)
     out.append(Schema('k_1_1',
                       [('A', [ID] + x), ('B', [ID, ('A_Id', 'unique_id')] + x)],
